@@ -234,6 +234,13 @@ class url_pattern_component {
 // If it is a string, it must be a valid UTF-8 string.
 using url_pattern_input = std::variant<std::string_view, url_pattern_init>;
 
+#ifdef ADA_URL_ADA_VERIF
+// Verification hook: when set, compile() sends every component through the
+// regular expression, so that the shortcut execution modes can be compared
+// with it.
+inline bool url_pattern_verif_force_regexp = false;
+#endif  // ADA_URL_ADA_VERIF
+
 // A struct providing the URLPattern matching results for all
 // components of a URL. The URLPatternResult API is defined as
 // part of the URLPattern specification.
